@@ -456,6 +456,12 @@ def _vec_into_iter(eng, st, fr, t, args, dest, target):
     return ('iter', 'val', eng.force(st, args[0]))
 
 
+@model('std::array::<impl std::iter::IntoIterator for [T; N]>::into_iter', 'core::array::<impl std::iter::IntoIterator for [T; N]>::into_iter',
+       'std::array::iter::<impl std::iter::IntoIterator for [T; N]>::into_iter', 'core::array::iter::<impl std::iter::IntoIterator for [T; N]>::into_iter')
+def _array_into_iter(eng, st, fr, t, args, dest, target):
+    return ('iter', 'val', eng.force(st, args[0]))
+
+
 @model('core::slice::<impl [T]>::iter', 'std::slice::<impl [T]>::iter')
 def _slice_iter(eng, st, fr, t, args, dest, target):
     r, p = ptr_of(eng, st, args[0])
@@ -580,6 +586,7 @@ for _n in ('<std::iter::Take<I> as std::iter::Iterator>::next',
            'std::iter::range::<impl std::iter::Iterator for std::ops::Range<A>>::next',
            'std::iter::range::<impl std::iter::Iterator for std::ops::RangeInclusive<A>>::next',
            '<std::iter::Skip<I> as std::iter::Iterator>::next',
+           '<std::array::IntoIter<T, N> as std::iter::Iterator>::next',
            '<std::iter::Map<I, F> as std::iter::Iterator>::next',
            '<std::iter::Enumerate<I> as std::iter::Iterator>::next',
            '<std::iter::Rev<I> as std::iter::Iterator>::next',
